@@ -196,6 +196,7 @@ func c17LinesArg(p *Prog, r *Report) {
 		{"lines:count", endObj, 0, isNextArg, -1, false, "\"-lines n\": end line = int(n)"},
 	}
 	var firstObj types.Object
+	matched := map[token.Pos]bool{}
 	for wi, w := range wants {
 		found := false
 		ast.Inspect(loop.Body, func(n ast.Node) bool {
@@ -279,6 +280,7 @@ func c17LinesArg(p *Prog, r *Report) {
 				bad = append(bad, fmt.Sprintf("'is not \"end\"' test present: %v, wanted: %v", notEnd, w.end))
 			}
 			found = true
+			matched[as.Pos()] = true
 			r.Ob(w.key, p.Pos(as.Pos()), len(bad) == 0, w.what+": "+types.ExprString(as.Lhs[0])+" = "+types.ExprString(as.Rhs[0])+" under ["+joinConds(conds)+"]"+problems(bad))
 			return true
 		})
@@ -286,6 +288,25 @@ func c17LinesArg(p *Prog, r *Report) {
 			r.Ob(w.key, p.Pos(loop.Pos()), false, w.what+": no such store in the argument loop")
 		}
 	}
+	// nothing else in the argument loop changes the start index or the end line (the order of the arguments on
+	// the command line must not matter: a store that depends on what was parsed before does)
+	extra := ""
+	ast.Inspect(loop.Body, func(n ast.Node) bool {
+		switch st := n.(type) {
+		case *ast.AssignStmt:
+			for _, l := range st.Lhs {
+				if o := useObj(info, l); (o == startObj || o == endObj) && !matched[st.Pos()] {
+					extra += fmt.Sprintf("%s = %s at %s; ", types.ExprString(l), types.ExprString(st.Rhs[0]), p.Pos(st.Pos()))
+				}
+			}
+		case *ast.IncDecStmt:
+			if o := useObj(info, st.X); o == startObj || o == endObj {
+				extra += fmt.Sprintf("%s%s at %s; ", types.ExprString(st.X), st.Tok, p.Pos(st.Pos()))
+			}
+		}
+		return true
+	})
+	r.Ob("lines:no-other-store", p.Pos(loop.Pos()), extra == "", "stores to the start index / end line in the argument loop besides the three recognised ones: "+orStr(extra, "none"))
 	// the value is consumed: an unconditional i++ at the end of the arm
 	consumed := false
 	ast.Inspect(loop.Body, func(n ast.Node) bool {
